@@ -192,7 +192,8 @@ def run(chk, repo, tier):
         # the path for fields that are not all one-element fields at the origin (that one returns () / [Ellipsis])
         def special(p_):
             r_ = p_.ret
-            return (isinstance(r_, Tup) and len(r_) == 0) or (isinstance(r_, Tup) and len(r_) == 1 and r_.items[0] == nf.ELLIPSIS)
+            return (isinstance(r_, Tup) and len(r_) == 0) or (isinstance(r_, Tup) and len(r_) == 1 and r_.items[0] == nf.ELLIPSIS) \
+                or _repeated_list(r_) is not None
         general = [p_ for p_ in rets if not special(p_)] or rets[-1:]
         p = general[-1]
         if fn == '_merge_shape':
@@ -274,7 +275,68 @@ def run(chk, repo, tier):
            det or 'no `out[slices[k]] += fields[k].data` accumulation found', f.loc())
     chk.ob('C06-e', 'D-sum', f.key, 'accumulator starts as zeros of the merged shape', ok_zero, '', f.loc())
 
+    slice_count_rule(chk, repo, 'C06-e')
     disjoint_rules(chk, repo)
+
+
+def _repeated_list(v):
+    """v = [item, ...] * n  ->  (items, n)"""
+    a = v.single_atom() if isinstance(v, Poly) else None
+    if a is not None and is_app(a, 'repeat_list') and isinstance(a[2][0], Tup):
+        return a[2][0], a[2][1]
+    return None
+
+
+def slice_count_rule(chk, repo, clause):
+    """_merge walks zip(fields, slices): a field without a slice of its own is silently left out of the sum, so every
+    return of _merge_slices must hold one slice per field (the all-at-the-origin shortcut included)."""
+    f, paths, _ = analyse(repo, 'field._merge_slices')
+    fields = S('fields')
+    nfields = {nf.app('len', fields)}
+
+    def over_fields(seq):
+        sa = seq.single_atom() if isinstance(seq, Poly) else None
+        if seq == fields:
+            return True
+        if sa is not None and is_app(sa, ('enumerate', 'listcomp', 'genexp', 'reversed', 'list', 'tuple')) and sa[2]:
+            return over_fields(sa[2][-1])
+        if sa is not None and is_app(sa, 'range') and len(sa[2]) == 1:
+            return sa[2][0] in nfields
+        if sa is not None and is_app(sa, 'zip'):
+            return any(isinstance(x, Poly) and over_fields(x) for x in sa[2])
+        return False
+    for p in returns(paths):
+        r = p.ret
+        ok, det = None, f'returns {fmt(r)[:120]}'
+        rep = _repeated_list(r)
+        ra = r.single_atom() if isinstance(r, Poly) else None
+        if isinstance(r, Tup):
+            if not any(isinstance(i, Poly) and fields.single_atom() in nf.value_atoms(i) for i in r.items):
+                ok = False
+                det = f'returns a list of {len(r)} slice(s) however many fields there are: zip(fields, slices) in _merge stops ' \
+                      f'after {len(r)} field(s) and the others are left out of the sum'
+        elif rep is not None:
+            ok = True if (len(rep[0]) == 1 and rep[1] in nfields) else None
+        elif ra is not None and is_app(ra, ('listcomp', 'genexp')) and len(ra[2]) == 2:
+            ok = True if over_fields(ra[2][1]) else None
+        elif ra is not None and ra[0] == 'loop':
+            for lp in p.state.loops:
+                appended = []
+                for ends in lp['ends']:
+                    cnt = 0
+                    v = ends.get(str(ra[1]).split('@')[0])
+                    while isinstance(v, Poly) and v.single_atom() is not None and is_app(v.single_atom(), ('append', 'mut:append')):
+                        cnt += 1
+                        v = v.single_atom()[2][0]
+                    if not (isinstance(v, Poly) and v.single_atom() is not None and v.single_atom()[:2] == ra[:2]):
+                        cnt = None          # grown some other way
+                    appended.append(cnt)
+                if appended and isinstance(lp.get('iter'), Poly) and over_fields(lp['iter']):
+                    if all(c == 1 for c in appended):
+                        ok = True
+                    elif any(c == 0 for c in appended if c is not None):
+                        ok, det = False, 'some iteration over the fields appends no slice'
+        chk.ob(clause, 'D-sum', f.key, f'one slice per field [{conds_str(p)[:60]}]', ok, det, f.loc(p.node))
 
 
 def _list_version_of(v, target):
